@@ -20,8 +20,8 @@ def run(ctx):
                         "(interp.compare): sampled inputs, not all inputs"]
     ctx.trusted += ["modelled, not verified: the effect analysis + z3 behind Check_Bounds / alloc_check etc. "
                     "(their verdicts are only observed through accepted/rejected rewrites)"]
-    broken = ctx.lean_obligations(["ExoModel.Props.C04", "ExoModel.Props.C04Shapes"])
-    recs = sched_run.run_stream(ctx, ["obs_wf", "obs_sem"], nvariants=ctx.scale(1, 3),
+    broken = ctx.lean_obligations(["ExoModel.Props.C04", "ExoModel.Props.C04Shapes"], build_targets=["ExoModel.Props.C04", "ExoModel.Props.C04Shapes", "ExoModel.WfTie"])
+    recs = sched_run.run_stream(ctx, ["obs_wf", "obs_sem", "wftie"], nvariants=ctx.scale(1, 3),
                                 opts={"depth": ctx.scale(1, 2), "n_inputs": ctx.scale(2, 5),
                                       "compile_every": ctx.scale(25, 8), "safety_only": True})
     nviol = 0
@@ -49,6 +49,12 @@ def run(ctx):
                 pass  # C07
             elif x["kind"] == "shape-mismatch":
                 pass  # C01
+            elif x["kind"] == "wftie-broken":
+                # site condition, shape match and scope check hold and the input is wf, yet the output is not:
+                # contradicts Exo.C04.wf_tie_sound — exporter / driver / theorem fault
+                ctx.violation(x["key"], x["what"][:300], x, no_input=True)
+            elif x["kind"].startswith("wftie-"):
+                pass  # counted (cond-fails-result-not-wf cases are the ill-formed outputs obs_wf reports)
             elif x["kind"] == "observer-exception":
                 ctx.violation(f"observer-exception:{x['att']['op']}", x["exc"], x, no_input=True)
     ctx.evaluations = ctx.counts.get("wf-checked", 0)
